@@ -1492,13 +1492,26 @@ fn insert_child(
 
         TableBody(ref mut rows) | Table(RenderTable { ref mut rows, .. }) => {
             // If the row is empty, then there isn't really anything
-            // to attach the fragment start to.
-            if let Some(rrow) = rows.first_mut() {
-                if let Some(cell) = rrow.cells.first_mut() {
-                    match position {
-                        ChildPosition::Start => cell.content.insert(0, new_child),
-                        ChildPosition::End => cell.content.push(new_child),
-                    }
+            // to attach the fragment start to.  Prefer the first cell with
+            // some content, as a row of empty cells is never drawn.
+            let target = rows
+                .iter()
+                .enumerate()
+                .find_map(|(rowno, rrow)| {
+                    rrow.cells
+                        .iter()
+                        .position(|cell| cell.content.iter().any(|n| !n.is_shallow_empty()))
+                        .map(|cellno| (rowno, cellno))
+                })
+                .or_else(|| match rows.first() {
+                    Some(rrow) if !rrow.cells.is_empty() => Some((0, 0)),
+                    _ => None,
+                });
+            if let Some((rowno, cellno)) = target {
+                let cell = &mut rows[rowno].cells[cellno];
+                match position {
+                    ChildPosition::Start => cell.content.insert(0, new_child),
+                    ChildPosition::End => cell.content.push(new_child),
                 }
             }
         }
